@@ -161,6 +161,9 @@ func genDgram4x(c *Ctx, relay net.IP, mut bool) ([]byte, string) {
 	s.extra = map[uint8][]byte{}
 	mts := [][]byte{{1}, {3}, {1}, {3}, {4}, {7}, {8}, {2}, {5}, {0}, {200}, nil, {}, {1, 1}}
 	s.mtype = mts[r.Intn(len(mts))]
+	if !mut && r.Pct(85) {
+		s.mtype = [][]byte{{1}, {3}}[r.Intn(2)] // (start mode waits for each reply on a real socket: mostly answerable requests)
+	}
 	if r.Pct(5) && mut {
 		s.op = byte(r.Intn(4))
 	}
@@ -196,6 +199,9 @@ func genDgram6x(c *Ctx, held *[]net.IPNet, mut bool) ([]byte, string) {
 	r := c.R
 	types := []uint8{1, 1, 1, 3, 3, 5, 6, 4, 8, 9, 11, 2, 7, 10, 12, 13, 0, 200}
 	s := req6spec{mtype: types[r.Intn(len(types))]}
+	if !mut && r.Pct(85) {
+		s.mtype = []uint8{1, 1, 3, 5, 6, 8, 11, 4}[r.Intn(8)]
+	}
 	copy(s.xid[:], r.Bytes(3))
 	mac := c01MACs6[r.Intn(len(c01MACs6))]
 	switch r.Intn(10) {
